@@ -25,6 +25,7 @@ from __future__ import annotations
 
 import ast as pyast
 import os
+import re
 
 import z3
 
@@ -414,6 +415,155 @@ def pairs(ctx, objs, tier):
     ctx.under_contract(SCALA[1], 'Genotype.allelePairSqrt (bounded)')
 
 
+# ---- (S) the codec is a function of the 32 bits alone: no process-wide state -------------------------------------------------
+
+MUTATORS = frozenset('append extend insert add update setdefault pop popitem clear remove discard sort reverse appendleft popleft extendleft __setitem__ __delitem__ __setattr__ cache_clear'.split())
+CODEC_ROOTS = ('_tcall._convert_from_encoding', '_tcall._convert_to_encoding')
+
+
+def _root_name(n):
+    while isinstance(n, (pyast.Subscript, pyast.Attribute, pyast.Starred)):
+        n = n.value
+    return n.id if isinstance(n, pyast.Name) else None
+
+
+def _bound_names(fn):
+    """names local to one invocation of fn (its nested defs included): parameters and everything bound by a statement"""
+    out, glob = set(), set()
+    for n in pyast.walk(fn):
+        if isinstance(n, (pyast.FunctionDef, pyast.AsyncFunctionDef, pyast.Lambda)):
+            a = n.args
+            out.update(x.arg for x in a.posonlyargs + a.args + a.kwonlyargs + ([a.vararg] if a.vararg else []) + ([a.kwarg] if a.kwarg else []))
+            if not isinstance(n, pyast.Lambda) and n is not fn:
+                out.add(n.name)
+        elif isinstance(n, pyast.Name) and isinstance(n.ctx, (pyast.Store, pyast.Del)):
+            out.add(n.id)
+        elif isinstance(n, pyast.ClassDef):
+            out.add(n.name)
+        elif isinstance(n, pyast.alias):
+            out.add((n.asname or n.name).split('.')[0])
+        elif isinstance(n, pyast.ExceptHandler) and n.name:
+            out.add(n.name)
+        elif isinstance(n, pyast.Global):
+            glob.update(n.names)
+    return out - glob, glob
+
+
+def _writes(tree):
+    """(root name, line, what) of every store through a subscript / attribute, augmented assignment, del and call of a mutating
+    method in `tree`"""
+    out = []
+    for n in pyast.walk(tree):
+        tg = []
+        if isinstance(n, pyast.Assign):
+            tg = list(n.targets)
+        elif isinstance(n, (pyast.AugAssign, pyast.AnnAssign)):
+            tg = [n.target]
+        elif isinstance(n, pyast.Delete):
+            tg = list(n.targets)
+        elif isinstance(n, (pyast.For, pyast.AsyncFor)):
+            tg = [n.target]
+        for t in tg:
+            for e in (t.elts if isinstance(t, (pyast.Tuple, pyast.List)) else [t]):
+                if isinstance(e, (pyast.Subscript, pyast.Attribute)):
+                    out.append((_root_name(e), e.lineno, 'store through %s' % pyast.unparse(e)))
+                elif isinstance(e, pyast.Name) and isinstance(n, pyast.AugAssign):
+                    out.append((e.id, e.lineno, 'augmented assignment to %s' % e.id))
+        if isinstance(n, pyast.Call) and isinstance(n.func, pyast.Attribute) and n.func.attr in MUTATORS:
+            out.append((_root_name(n.func.value), n.lineno, 'call of the mutating method %s' % pyast.unparse(n.func)))
+    return out
+
+
+def stateless_codec(ctx):
+    """Decoding / encoding is a function of the 32 bits (of the call) alone: the codec functions and every module-level function
+    they reach keep no state between two invocations.  Decided on the real AST of types.py on every run:
+      * no `global` declaration, no store / augmented assignment / del / mutating-method call whose root is a name that is not
+        local to the invocation (module-level objects, and `self`: tcall is one process-wide instance);
+      * no memoising decorator on any of them;
+      * every module-level VALUE they read (small_allele_pair) is bound exactly once at module level and is not written through
+        anywhere in the module.
+    Returns the names of the module-level values read (the native witness search binds exactly these)."""
+    import builtins
+
+    tree = pyast.parse(core.read_repo(TYPES))
+    top_funcs = {n.name: n for n in tree.body if isinstance(n, (pyast.FunctionDef, pyast.AsyncFunctionDef))}
+    top_classes = {n.name: n for n in tree.body if isinstance(n, pyast.ClassDef)}
+    top_imports = set()
+    star = False
+    for n in tree.body:
+        if isinstance(n, (pyast.Import, pyast.ImportFrom)):
+            for a in n.names:
+                if a.name == '*':
+                    star = True
+                top_imports.add((a.asname or a.name).split('.')[0])
+    top_values = {}
+    for n in tree.body:
+        tg = n.targets if isinstance(n, pyast.Assign) else ([n.target] if isinstance(n, (pyast.AnnAssign, pyast.AugAssign)) else [])
+        for t in tg:
+            for e in (t.elts if isinstance(t, (pyast.Tuple, pyast.List)) else [t]):
+                if isinstance(e, pyast.Name):
+                    top_values.setdefault(e.id, []).append(n.lineno)
+    tc = top_classes.get('_tcall')
+    if tc is None:
+        raise pyvc.Undecided('class _tcall not found in %s' % TYPES)
+    work, seen = [], {}
+    for q in CODEC_ROOTS:
+        m = [n for n in tc.body if isinstance(n, pyast.FunctionDef) and n.name == q.split('.')[1]]
+        if len(m) != 1:
+            raise pyvc.Undecided('%s not found exactly once' % q)
+        work.append((q, m[0]))
+    problems, value_reads, unresolved = [], {}, []
+    while work:
+        q, fn = work.pop()
+        if q in seen:
+            continue
+        seen[q] = fn
+        ctx.under_contract(TYPES, q + ' (no process-wide state)')
+        local, glob = _bound_names(fn)
+        for g in sorted(glob):
+            problems.append('%s declares `global %s`' % (q, g))
+        is_method = '.' in q
+        for d in fn.decorator_list:
+            txt = pyast.unparse(d)
+            if re.search(r'cache|memo|lru', txt, re.I):
+                problems.append('%s is wrapped by the memoising decorator @%s' % (q, txt))
+            else:
+                raise pyvc.Undecided('%s carries the decorator @%s, whose effect on the codec is not modelled' % (q, txt))
+        for root, line, what in _writes(fn):
+            if root is None:
+                problems.append('%s:%d %s (root is not a name)' % (q, line, what))
+            elif root not in local or (is_method and root == 'self'):
+                problems.append('%s line %d: %s - `%s` outlives the invocation' % (q, line, what, root))
+        for n in pyast.walk(fn):
+            if isinstance(n, pyast.Name) and isinstance(n.ctx, pyast.Load) and n.id not in local:
+                nm = n.id
+                if nm in top_funcs:
+                    work.append((nm, top_funcs[nm]))
+                elif nm in top_values:
+                    value_reads.setdefault(nm, set()).add(q)
+                elif nm in top_classes or nm in top_imports or hasattr(builtins, nm):
+                    pass
+                else:
+                    unresolved.append('%s reads `%s`' % (q, nm))
+    all_writes = _writes(tree)
+    for nm, users in sorted(value_reads.items()):
+        if len(top_values[nm]) != 1:
+            problems.append('module-level `%s` (read by %s) is bound %d times (lines %s)' % (nm, ', '.join(sorted(users)), len(top_values[nm]), top_values[nm]))
+        for root, line, what in all_writes:
+            if root == nm:
+                problems.append('module-level `%s` (read by %s) is written at line %d: %s' % (nm, ', '.join(sorted(users)), line, what))
+        for n in pyast.walk(tree):
+            if isinstance(n, pyast.Global) and nm in n.names:
+                problems.append('module-level `%s` (read by %s) is rebound through `global` at line %d' % (nm, ', '.join(sorted(users)), n.lineno))
+    if unresolved and star:
+        raise pyvc.Undecided('names of unknown origin (star import) in the codec: %s' % unresolved[:4])
+    if unresolved:
+        raise pyvc.Undecided('free names of the codec that resolve to nothing in %s: %s' % (TYPES, unresolved[:4]))
+    ctx.add(core.decided('C34/stateless/codec-reads-and-writes-no-process-wide-mutable-state (decoding is a function of the 32 bits alone)', not problems, '; '.join(problems[:6]) or 'functions scanned: %s; module-level values read: %s' % (', '.join(sorted(seen)), ', '.join(sorted(value_reads)) or 'none'), kind='scan'))
+    ctx.add(core.decided('C34/stateless/scan-reaches-both-codec-methods-and-the-pair-helpers', all(q in seen for q in CODEC_ROOTS + ('allele_pair', 'allele_pair_sqrt')), 'scanned: %s' % ', '.join(sorted(seen)), kind='vacuity'))
+    return sorted(value_reads)
+
+
 def call_init():
     """hl.Call.__init__: an unphased diploid call stores its alleles in ascending order"""
     return Contract(
@@ -432,6 +582,8 @@ def call_init():
 
 
 def build(ctx):
+    # decided on the AST first: these obligations stand even when a later contract no longer fits a changed source
+    stateless_codec(ctx)
     objs = scvc.load_objects([os.path.join(core.REPO, p) for p in SCALA])
     encode_decode(ctx, objs)
     pairs(ctx, objs, ctx.tier if hasattr(ctx, 'tier') else 'quick')
